@@ -107,6 +107,18 @@ STRENGTHENED = [
     ("seeded/C16-i", "QMetaData keeps a reference to the caller's dict", "C16: in half of the histories ONE dict object is re-used for all QMetaData calls and changed after each call"),
     ("seeded/C17-i", "a 'scope-aware' rewrite leaves seq.Op(...) alone when a lambda parameter is called Op", "C17: lambda parameters spelled like operators (Count, Where, Sum, First); for those cases only the structural checks run (a back end reads Op(...) by name, python's scoping does not)"),
     ("seeded/C19-i", "attribute access treated as a leaf: a shortcut below the attribute that is the sequence argument is not lowered", "C19: sequences of the form hold(<int expr>, <seq expr>).seq"),
+    ("seeded/C01-j", "the arg_N counter is moved to the highest index in use instead of one past it", "C01 / C02: binder naming schemes argn (all names arg_0..arg_5) and argmix (hand-written names next to arg_N names)"),
+    ("seeded/C06-j", "a ** spread among the keywords of a dataclass / NamedTuple constructor call is silently dropped", "C06: malformed kinds 'spread' (** mapping in the call) and 'twice' (keyword naming a positionally bound field; exposed the genuine defect D66)"),
+    ("seeded/C07-j", "a QMetaData call that records nothing new returns a stream without item type", "C07: metadata calls (QMetaData empty / once / repeated, MetaData) before and between the stages"),
+    ("seeded/C08-j", "a subscript with a negative or computed index on a typed sequence keeps the sequence type", "C08: index texts 0, 1, -1, 2 - 1, -(1), len(seq) - 1"),
+    ("seeded/C09-j", "Where no longer hands known_types down: call sites on variables of enclosing lambdas are not seen", "C09: call sites on variables of ENCLOSING lambdas inside nested Select / Where / SelectMany lambdas"),
+    ("seeded/C10-j", "is_arg looks at the innermost frame only", "C10: the module that holds the callable has a global spelled like the lambda's parameter"),
+    ("seeded/C13-j", "file names coerced with str()", "C13: file and tree names may be bytes"),
+    ("seeded/C14-j", "the starred-element guard walks the whole literal", "C14 (typed generator flag starred_calls): (lambda *r: Count(r))(*seq) as a value, also as a package member"),
+    ("seeded/C17-j", "shared default keyword list extended by every rewritten call", "C17: a result that is not a finite tree (ast.dump recursion) is reported as a violation instead of a harness error; the keyword-argument cases of D57 reach it"),
+    ("seeded/C18-j", "defaults of a called lambda aligned with args only, not posonlyargs + args", "typed generator: positional-only parameters before defaulted ones in called lambdas; literal projections routed through (lambda v, /, i=K: v[i])(literal)"),
+    ("seeded/C19-j", "explicit Aggregate(seq, seed, lambda) calls are not walked", "C19: user-written Aggregate calls with shortcuts in the sequence, the seed and the accumulator lambda"),
+    ("seeded/C20-j", "empty MetaData wrappers removed before hashing", "C20: edits that wrap the first argument of a call in MetaData(x, {}) / Select(x, lambda x: x)"),
     ("seeded/C08-c", "generic subclass with more type parameters than its base uses", "C08 skeleton: Tag(Box[K], Generic[K,V]), Tag2(Box[V], ...), Swap(Pair[U,T], ...), HalfPair(Pair[T,int]), It2(Iterable[V], ...), TagInts(Tag[int,V]); class names taken from typing. This extension also exposed the genuine defects D29 and D30"),
 ]
 
